@@ -19,6 +19,13 @@ CLAIMED = {
         technique='static analysis: MIR origin/provenance dataflow + dominance (custom rustc_private driver)'),
 }
 
+CLAIMED['C15'] = dict(
+    category='other',
+    text='Static switch-table extraction + error-discipline analysis over rustc MIR: for each documented refusal (colour depth, pixel ratio, layer type, blend mode, cel type, animation direction, colour-profile type/ICC/gamma flag, bits per tile, tilesets without pixels, chunk type) the accepted constant set is read off the branch, the remaining edge is shown to return Err on every path, the decoder call is shown to dominate the construction of the decoded structure, and its Result is shown to be ?-propagated up to read_aseprite; every fallible call site in the loader cone is checked for dropped errors. Holds for all inputs because it is a property of the branch structure, not of sampled files.',
+    design_ref='DESIGN.md section 4, C15',
+    note='Trusted: rustc MIR, the driver, the supported value sets transcribed from the file-format spec (DESIGN.md Appendix A). Pixel-ratio rule decided by abstract evaluation of the guard over value classes {0,1,2,255}^2. Does not decide which error variant is returned.',
+    technique='static analysis: MIR switch-table extraction, dominance / must-pass-through, Result-propagation (error discipline) dataflow')
+
 ALL = ['C%02d' % i for i in range(1, 20)]
 
 
